@@ -11,9 +11,9 @@ CHECKS["C30"] = {"pkg": "arith", "shards": 8,
     "technique": "property-based testing (rapid grammar-based string generator) against a regexp + big.Rat reference parser; round-trip oracle",
     "text": "Generated-input search: ToString/FromString round trip on boundary-biased uint64 values and FromString against an independent exact-rational parser on grammar-generated, mutated and random strings. Completeness is demanded for plain decimals with <=6 places that fit, soundness (accepted => exact) for every string.",
     "note": "reference parser (regexp + math/big.Rat) is trusted; exponent magnitudes are bounded to 40 in this check"}
-CHECKS["C29"] = {"pkg": "arith", "shards": 8,
+CHECKS["C29"] = {"pkg": "arith", "more_pkgs": ["api"], "shards": 8,
     "technique": "property-based testing (rapid) plus exhaustive small-space enumeration against an exact big-integer slice model",
-    "text": "PageIndex.Cal is enumerated exhaustively for sizes 1..100 x lengths 0..220 x all pages (partition oracle: consecutive, covering, empty beyond N) and sampled over 64-bit page numbers including ones constructed so that (page-1)*size wraps 2^64.",
+    "text": "PageIndex.Cal is enumerated exhaustively for sizes 1..100 x lengths 0..220 x all pages (partition oracle: consecutive, covering, empty beyond N) and sampled over 64-bit page numbers including ones constructed so that (page-1)*size wraps 2^64; the same partition oracle is applied to address queries on a real node (chain + pool) through Visor.GetTransactions and GET /api/v2/transactions, which must agree with each other.",
     "note": "the exact model is [min((p-1)s,n),min(ps,n)) in math/big"}
 
 
